@@ -57,6 +57,14 @@ CLAIMED.update({
    technique="Coq proof of the selection/identity glue + differential validation of the codec inverse law against upstream and unrelated decoders",
    design="7/C14"),
 })
+CLAIMED["C10"]["text"] = "Coq theorems C10_retention_invariant / C10_retention (in every state reachable by edits the builder stores exactly one copy of each content some in-memory tile refers to and none that no tile refers to), C10_finish_is_spec (finish() equals the specification layout of the logical content - the (id, content) list sorted by id - whatever the hashes, the order of the internal maps and whether tiles are in memory or reader-backed), C10_data_once (the tile-data section is the distinct contents, each exactly once; counters = number of tiles / distinct contents), C10_runs_maximal (no two adjacent entries could be merged) and C10_runs_exact (expanding the runs gives back every tile's placement). Tie: Rust finish/to_writer vs the extracted model (byte-exact archives, snapshots of the internal maps after every edit) and an independent spec reader checking data length = sum of distinct contents, shared offsets and maximal runs on every written archive, with duplicates between in-memory and reader-backed tiles and non-deduplicated foreign sources."
+CLAIMED["C10"]["technique"] = "Coq proof (store invariant by induction over the history; loop invariant relating the hash-keyed offset map to a content-keyed specification) + correspondence run + independent-reader layout oracle"
+CLAIMED["C10"]["note"] = "Trusted: Coq kernel (closed under the global context); model of tile_manager.rs; premises: no 64-bit hash collision among the contents that occur (hash_inj_on), contents shorter than 2^32 bytes, ids below 2^63, fewer than 2^32-1 tiles; extraction + driver + harness; hook verif_snapshot."
+CLAIMED["C16"] = dict(
+   text="Coq theorems C16_canonical_partial and C16_logical_determined: two archive values with the same tiles (every lookup agrees), metadata and settings produce identical to_writer results (bytes, position, operation log) whatever the order of their internal hash maps (hence whatever process wrote them), the edit history that produced them and whether tiles are in memory or reader-backed - by finish = specification layout of the logical content and uniqueness of the id-sorted content list. The rewrite clause (to_writer(from_reader b) = b) is decided by the correspondence run (model vs Rust, byte-exact) and the direct oracle: pairs of histories reaching the same logical state (permuted insertions; detours through wrong contents, temporary twins, idempotent re-adds, removals, saves in between), rewrite idempotence per API family, leaf-spilling archives, and separate OS processes with differently seeded hash maps.",
+   note="Trusted: Coq kernel (closed under the global context); models of tile_manager.rs and pmtiles.rs; premises as for C10 (hash_inj_on, sizes); serde_json's key-ordered map enters as the canonical metadata bytes; extraction + driver + harness.",
+   technique="Coq proof (finish = spec layout; sorted-list uniqueness) + correspondence run + history-pair / cross-process oracle",
+   design="7/C16")
 PENDING_REASON = "check not built yet in this revision of /verif (the design in DESIGN.md section 7 covers it); no claim is made until its theorems and correspondence run exist"
 props = [json.loads(l)["id"] for l in open(os.path.join(ROOT, "properties.jsonl"))]
 checks = []
